@@ -9,6 +9,14 @@ COMPONENTS = {
         'stub': ['file system for save/load (in-memory SimFS bound to the '
                  'fileio module namespace; no disk faults injected)'],
     },
+    'interleave': {
+        'real': ['optiland.Optic, tracing, paraxial / aberration queries, '
+                 'wavefront / PSF / MTF, every analysis class, ray and '
+                 'paraxial operands', 'numpy / scipy as installed'],
+        'stub': ['the callers: scripted clients stepped by a seeded '
+                 'scheduler at API-call granularity (no threads; the '
+                 'property promises nothing about thread safety)'],
+    },
 }
 
 ASSUMPTIONS = {
@@ -30,6 +38,19 @@ ASSUMPTIONS = {
         'surface (its height post-condition is not part of the statement)',
         'after insertion in the middle / removal only the stop and primary-'
         'wavelength clauses are checked',
+    ],
+    'C13': [
+        'the same numpy call on same-shaped input is bit-reproducible within '
+        'one process (single-threaded BLAS/FFT forced by the check)',
+        'unseeded random pupil sampling and lenses with scatter models are '
+        'excluded, as the statement excludes them; RandomDistribution is '
+        'used only with an explicit seed',
+        'a call that raises identically in the interleaved run and alone is '
+        'counted, not flagged (the oracle for raising calls is differential)',
+        'batch independence: 1e-13 relative for closed-form surfaces, '
+        '10 x the surface tolerance when an iterative surface is present',
+        'no client edits the lens; pre-emption inside a call (threads) is '
+        'not simulated',
     ],
     'C07': [
         'only the clause "the library\'s own system-scaling operation '
